@@ -395,7 +395,7 @@ def gen_world(rng, n_genes=1, gene_opts=None, read_opts=None, margin=300):
     contig = list(rand_seq(rng, total))
     genes = []
     for gi, (o, g0, p0) in enumerate(layout):
-        name = "SIM" + "ABCDEFGH"[gi]
+        name = o.get("name") or ("SIM" + "ABCDEFGH"[gi])
         genes.append(gen_gene(rng, name, contig, g0, p0, o))
     return {
         "contig": {"name": "sim1", "seq": "".join(contig)},
